@@ -12,6 +12,7 @@
 #include <fcppt/impl/codecvt_type.hpp>
 #include <fcppt/optional/object_impl.hpp>
 #include <fcppt/config/external_begin.hpp>
+#include <algorithm>
 #include <iterator>
 #include <locale>
 #include <string>
@@ -76,13 +77,21 @@ fcppt::optional::object<std::basic_string<Out>> codecvt(
     case std::codecvt_base::error:
       return optional_return_type{};
     case std::codecvt_base::partial:
-      if (written == 0U)
+    {
+      // Either the next character did not fit into the write area, or the
+      // input ends in an incomplete sequence. Never return what has been
+      // converted so far as if it were the whole result.
+      auto const max_length(static_cast<typename buffer_type::size_type>(conv.max_length()));
+
+      if (written == 0U && buf.write_size() >= max_length)
       {
-        return optional_return_type{return_type(buf.begin(), buf.end())};
+        // There was room for any character, so no progress is possible.
+        return optional_return_type{};
       }
 
-      buf.resize_write_area(buf.read_size() * 2U);
+      buf.resize_write_area(std::max(buf.read_size() * 2U, max_length));
       continue;
+    }
     case std::codecvt_base::ok:
       return optional_return_type{return_type(buf.begin(), buf.end())};
     }
